@@ -25,7 +25,7 @@ import (
 func init() {
 	for _, p := range []string{"C01", "C02", "C03", "C04", "C05", "C06"} {
 		p := p
-		worlds[p] = &simkit.World{Property: p, Run: func(r *simkit.Run) { runData(r, p) }, Classify: func(*simkit.Run) {}, TraceCap: 3000, MinBudget: 150}
+		worlds[p] = &simkit.World{Property: p, Run: func(r *simkit.Run) { runData(r, p) }, Classify: classifyData, TraceCap: 3000, MinBudget: 150}
 	}
 }
 
@@ -165,6 +165,14 @@ type dataWorld struct {
 	inFlight bool
 	logical  map[string]bool // logical sharded/global table names that must never reach a backend under their logical db
 	other    int             // violations of other properties seen (ignored by this check)
+	stop     bool            // such a violation may have made shards and reference diverge: the run ends quietly
+	finding  string          // known-finding predicate the violation about to be reported satisfies
+}
+
+func classifyData(r *simkit.Run) {
+	if d, ok := r.World.(*dataWorld); ok && r.Viol != nil {
+		r.Viol.Finding = d.finding
+	}
 }
 
 // fail reports a violation of clause if it belongs to the property under check; other properties' clauses are logged only.
@@ -174,6 +182,7 @@ func (d *dataWorld) fail(clause, format string, a ...interface{}) bool {
 		return true
 	}
 	d.other++
+	d.stop = true
 	d.r.Logf("(not under check here) %s: %s", clause, fmt.Sprintf(format, a...))
 	return false
 }
@@ -182,6 +191,7 @@ func (d *dataWorld) store(addr string) *sqlmini.Store {
 	s := d.stores[addr]
 	if s == nil {
 		s = sqlmini.NewStore()
+		s.NoUnique = true // duplicate sharding values (and with them duplicate ids) are part of the workload
 		d.stores[addr] = s
 	}
 	return s
@@ -193,6 +203,7 @@ func ensure(s *sqlmini.Store, db, table string) *sqlmini.Table {
 		return t
 	}
 	t := s.Create(db, table, dataCols)
+	t.Kinds = dataKinds
 	return t
 }
 
@@ -476,6 +487,8 @@ func runData(r *simkit.Run, prop string) {
 	ns.DefaultPhyDBS["db_mycat"] = "db_mycat_0"
 	ns.ShardRules = []*models.Shard{rule.shard}
 	d := &dataWorld{r: r, prop: prop, rule: rule, stores: map[string]*sqlmini.Store{}, ref: sqlmini.NewStore(), logical: map[string]bool{}}
+	d.ref.NoUnique = true
+	r.World = d
 	// a global table next to it
 	if tp.Chance(2, 3) {
 		d.global, d.gdb = "t_global", rule.db
@@ -504,10 +517,10 @@ func runData(r *simkit.Run, prop string) {
 		decoy := d.store(stripAddr(ns.Slices[0].Master)).Create(d.physDB(rule.db), rule.table, dataCols)
 		decoy.Rows = append(decoy.Rows, []sqlmini.Value{sqlmini.Int(666001), sqlmini.Int(1), sqlmini.Int(1), sqlmini.Str("poison"), sqlmini.Str("2014-05-01")})
 	}
-	d.ref.Create(rule.db, rule.table, dataCols)
-	d.ref.Create(rule.db, "t_plain", dataCols)
+	d.ref.Create(rule.db, rule.table, dataCols).Kinds = dataKinds
+	d.ref.Create(rule.db, "t_plain", dataCols).Kinds = dataKinds
 	if d.global != "" {
-		d.ref.Create(d.gdb, d.global, dataCols)
+		d.ref.Create(d.gdb, d.global, dataCols).Kinds = dataKinds
 	}
 	finished := false
 	stats := map[string]int{}
@@ -523,7 +536,7 @@ func runData(r *simkit.Run, prop string) {
 			return
 		}
 		nOps := tp.Range(6, 16)
-		for j := 0; j < nOps && !r.Failed(); j++ {
+		for j := 0; j < nOps && !r.Failed() && !d.stop; j++ {
 			if d.c.Dead {
 				d.fail("harness", "connection lost")
 				return
